@@ -53,6 +53,16 @@ def jobs_for(tier, rng):
         m = gen.bits_and_ring(rng, q=3, nstoch=rng.randint(2, 4))
         jobs.append({"mdp": m, "kind": "PVI", "gamma": [1, 1], "eps": [1, 1], "period": 2, "clear": False,
                      "calls": [24], "mbs": 1024, "cert": False, "jdp": False if k % 2 == 0 else None, "tag": f"pvi-manybits{k}"})
+    # several periodic solvers on equally shaped problems solving AT THE SAME TIME in threads of one process
+    for g in range(2 if tier == "quick" else 10):
+        shape = rng.randint(2, 3), rng.randint(0, 2)
+        group = []
+        for k in range(4):
+            m = gen.ring(rng, shape[0], extra=shape[1], v0max=1, rmax=2)
+            group.append({"mdp": m, "kind": "PVI", "gamma": [1, 2] if g % 2 == 0 else [1, 1], "eps": [1, rng.choice([2, 4, 6])],
+                          "period": rng.randint(2, 3), "clear": False, "calls": [9], "mbs": 1024, "cert": False,
+                          "tag": f"pvi-threads{g}.{k}", "min_sweeps": 2})
+        jobs.append({"group": group, "tag": f"pvi-threads{g}"})
     # tens of thousands of states; the trace is reduced exactly (solver_worker.quotient)
     for N in ([20100] if tier == "quick" else [20100, 50021]):
         jobs.append({"mdp": gen.corridors(rng, N, [2, 3]), "kind": "PVI", "gamma": [1, 1], "eps": [1, 1], "period": 2,
